@@ -7,7 +7,7 @@ EXTENDS E37Mon
 VARIABLES st, inp, out
 vars == <<st, inp, out>>
 
-Init == /\ st \in {[mode |-> m, enabled |-> FALSE, cs |-> "NC", openSel |-> FALSE] : m \in {"active", "passive"}}
+Init == /\ st \in {[mode |-> m, enabled |-> FALSE, cs |-> "NC", openSel |-> FALSE, openData |-> FALSE] : m \in {"active", "passive"}}
         /\ inp = [k |-> "Init"] /\ out = NoOut
 
 Step(i) == LET e == Eff(st, i) IN e.en /\ st' = e.s /\ out' = e.out /\ inp' = i
@@ -23,9 +23,9 @@ Dump == PrintT(<<"TR", ToJson([from |-> st, inp |-> inp', out |-> out', to |-> s
 TypeOK == st.cs \in {"NC", "NS", "SEL"} /\ st.enabled \in BOOLEAN /\ st.openSel \in BOOLEAN
 NotConnectedWhenDisabled == ~st.enabled => st.cs = "NC"
 OpenOnlyWhenConnected == st.openSel => (st.cs # "NC" /\ st.mode = "active")
-NeverDeliverUnlessSelected == out.dlv => st.cs = "SEL"
+NeverDeliverUnlessSelected == (out.dlv \/ out.rep) => st.cs = "SEL"
 DataInNotSelectedRejected ==
-   (inp.k = "Data" /\ ~out.dlv) => out.req = <<Fr("Reject.req", "echo", 4)>>
+   (inp.k \in {"Data", "DataFor"} /\ ~out.dlv /\ ~out.rep) => out.req = <<Fr("Reject.req", "echo", 4)>>
 EveryRequestAnsweredOnce ==
    (inp.k = "Ctrl" /\ inp.st \in CtrlReq) => (Len(out.req) = 1 /\ out.req[1].sys = "echo")
 SelectedOnlyBySelect == [][(st.cs # "SEL" /\ st'.cs = "SEL") =>
